@@ -244,8 +244,10 @@ def insitu_case(ctx, i, rng):
             return
         if isinstance(b, M.BasePose) and not dom(b):
             return
-        seen[0] += 1
         la, lb = M.fl(a), M.fl(b)
+        if not all(math.isfinite(x) for x in lb):
+            return  # a diverged run feeds non-finite increments / points to the operators: outside the operators' domain
+        seen[0] += 1
         if type(b) is cls:
             exp, kk = R.oplus(k, la, lb), k
         elif isinstance(b, (M.PoseR2, M.PoseR3)) or len(lb) == NT[k]:
